@@ -28,6 +28,18 @@ import (
 
 const childEnv = "C15_CHILD"
 
+// teleportFrames tells whether the recorded stack of a handler panic passes through teleport's own modules
+// (anything but the handler closures app.go hands to gov).
+func teleportFrames(detail map[string]interface{}) bool {
+	fs, _ := detail["frames"].([]interface{})
+	for _, f := range fs {
+		if s, ok := f.(string); ok && !strings.HasPrefix(s, "app.") {
+			return true
+		}
+	}
+	return false
+}
+
 type latentInfo struct {
 	Count   int                    `json:"count"`
 	Example map[string]interface{} `json:"example"`
@@ -212,7 +224,7 @@ func (p *parent) runChild(spec childSpec) int {
 	p.r.Violation(last.C, sigKey(scope, c), map[string]interface{}{
 		"what": "the child process died while executing the logged case (process-fatal error, not a recoverable panic)", "exit": fmt.Sprint(runErr),
 		"last_logged_case": map[string]string{"history": last.C, "step": last.S, "kind": last.Kind, "desc": last.Desc},
-		"fatal": trunc(c.Msg, 300), "frames": repoFrames(c.Stack, 8), "stderr_tail": tail(stderr, 1500),
+		"fatal":            trunc(c.Msg, 300), "frames": repoFrames(c.Stack, 8), "stderr_tail": tail(stderr, 1500),
 	})
 	return resume
 }
@@ -252,6 +264,16 @@ func (p *parent) digest(path string) (done bool, last *rec) {
 			case "panic":
 				r.Violation(x.C, x.Key, x.Detail)
 			case "latent":
+				// A content that passes stateless validation and makes its handler panic when the handler is invoked the
+				// way gov.EndBlocker invokes it. On this chain the submission-time dry run refuses it, but that dry run is
+				// cosmos-sdk behaviour the property does not lean on (its gate is the stateless validation; a proposal
+				// imported through the gov genesis reaches EndBlock without any dry run). Judged as a violation when the
+				// panic is raised under teleport's own code; panics raised entirely inside cosmos-sdk handlers (unknown
+				// parameter keys of a ParameterChangeProposal) stay "latent" evidence.
+				if teleportFrames(x.Detail) {
+					r.Violation(x.C, strings.Replace(x.Key, "latent/", "handler/", 1), x.Detail)
+					break
+				}
 				p.mu.Lock()
 				li := p.latent[x.Key]
 				if li == nil {
